@@ -215,9 +215,12 @@ CLAIMED = {
         category="model_checking",
         text=("SHA-2, SHA-3/SHAKE and BLAKE2s buffering, padding, counters, output extraction, reset/clone/keyed modes are "
               "decided for all messages at every enumerated call shape (10k shapes quick, 360k thorough); the four "
-              "compression functions are proved equal to FIPS 180-4 / FIPS 202 / RFC 7693 round functions."),
+              "compression functions are proved equal to FIPS 180-4 / FIPS 202 / RFC 7693 round functions. Inductive steps from an ARBITRARY "
+              "mid-stream context (symbolic chaining value, buffer, and full-width byte counter, every fill level): update, finalisation "
+              "(padding, 64/128-bit length field for every counter value, BLAKE2s offset counter incl. the carry into t[1], last-block flag), "
+              "reset variants, SHA-3/SHAKE absorb / pad / squeeze at every block position."),
         design_ref="DESIGN.md 3 C17; engines/llsym/NOTES_C17.md",
-        note="Lengths up to 2 blocks + 9, at most two input split points / three extract calls; AVX2 and portable BLAKE2s paths are not compiled in the default build.",
+        note="Call shapes from a fresh context: lengths up to 2 blocks + 9, at most two input split points / three extract calls; arbitrary-state steps: one call of at most 2 blocks + 8 bytes; the composition law of the one-step rules is tested against hashlib, not proved; AVX2 and portable BLAKE2s paths are not compiled in the default build.",
     ),
     "C06": dict(
         engine="llsym",
